@@ -328,6 +328,16 @@ def run (op : String) (args : List String) : Option String :=
   | "io.write.tcp" => simpleWrite mkTcp Parts.tcp args
   | "io.write.icmpv4" => simpleWrite mkIcmp4 Parts.icmpv4 args
   | "io.write.icmpv6" => simpleWrite mkIcmp6 Parts.icmpv6 args
+  -- `Icmpv6Payload::write`: one `write_all` of the payload's fixed bytes (0 / 8 / 16 / 16 / 32 of them)
+  | "io.write.icmpv6payload" =>
+    match args with
+    | [kind, h, k] => do
+      let b ← argHex h
+      let k ← argNat k
+      let want := match kind with
+        | "rs" => some 0 | "ra" => some 8 | "ns" => some 16 | "na" => some 16 | "rd" => some 32 | _ => none
+      if want = some b.length then pure (plainWrite [b] k) else none
+    | _ => none
   -- `LinkHeader::write` / `TransportHeader::write`: a `match` that calls the `write` of the variant
   | "io.write.link.eth2" => simpleWrite mkEth2 Parts.eth2 args
   | "io.write.link.sll" => simpleWrite mkSll Parts.sll args
